@@ -42,7 +42,7 @@ void run_cpp(const Scenario& s, Observed& ob, bool query_leftover) {
                 const Exp& e = s.exps[i];
                 if (e.count == 0 && e.np == 0 && !e.obj && !e.ignoreOther && !s.readReturn && !s.outParam) { M(e.fn).expectNoCall(name(e.fn)); continue; }
                 MockExpectedCall& x = M(e.fn).expectNCalls((unsigned)e.count, name(e.fn));
-                if (e.obj) x.onObject(&g_obj[e.obj]);
+                if (e.obj) x.onObject(s.nullObject && e.obj == 2 ? nullptr : (void*)&g_obj[e.obj]);
                 for (int k = 0; k < e.np; k++) x.withParameter(PN[e.pname[k]], e.pval[k]);
                 if (s.outParam) x.withOutputParameterReturning("o", &outsrc[i], 1);
                 if (e.ignoreOther) x.ignoreOtherParameters();
@@ -52,7 +52,7 @@ void run_cpp(const Scenario& s, Observed& ob, bool query_leftover) {
             for (size_t c = 0; c < s.acts.size(); c++) {
                 const Act& a = s.acts[c];
                 MockActualCall& call = M(a.fn).actualCall(name(a.fn));
-                if (a.obj) call.onObject(&g_obj[a.obj]);
+                if (a.obj) call.onObject(s.nullObject && a.obj == 2 ? nullptr : (void*)&g_obj[a.obj]);
                 for (int k = 0; k < a.np; k++) call.withParameter(PN[a.pname[k]], a.pval[k]);
                 if (s.extraOut == 1) call.withOutputParameter("x", &ob.xb[c]);
                 if (s.outParam) call.withOutputParameter("o", &ob.outb[c]);
@@ -204,7 +204,7 @@ void check(const Scenario& s, const Alphabet& A) {
     }
 }
 
-struct Sweep { const char* name; bool ig, obj; int maxE, maxA; int flagbits; /* how many of strict,ioc,ret,out vary */ int nfn; int scoped = 0; bool xout = false; bool plugin = false; bool outname = false; };
+struct Sweep { const char* name; bool ig, obj; int maxE, maxA; int flagbits; /* how many of strict,ioc,ret,out vary */ int nfn; int scoped = 0; bool xout = false; bool plugin = false; bool outname = false; bool nullobj = false; };
 
 void run_sweep(const Sweep& sw) {
     Alphabet A = make_alphabet(sw.ig, sw.obj, sw.nfn);
@@ -222,6 +222,7 @@ void run_sweep(const Sweep& sw) {
         decode_tuple(ie, (long)A.eo.size(), te); decode_tuple(ia, (long)A.ao.size(), ta);
         Scenario s;
         s.strict = flags & 1; s.ignoreOtherCalls = flags & 2; s.readReturn = flags & 4; s.outParam = flags & 8;
+        if (sw.nullobj) s.nullObject = true;
         if (sw.outname) { s.extraOut = 3 + (flags & 1); s.readReturn = flags & 2; s.outParam = false; s.strict = false; s.ignoreOtherCalls = false; }
         if (sw.xout) { s.extraOut = 1 + (flags & 1); s.readReturn = flags & 2; s.outParam = true; s.strict = false; s.ignoreOtherCalls = false; }
         if (sw.scoped) { s.scoped = sw.scoped; s.readReturn = flags & 1; s.outParam = flags & 2; s.strict = false; s.ignoreOtherCalls = false; }
@@ -247,9 +248,9 @@ int main(int argc, char** argv) {
         if (!T) sweeps = { {"basic22", false, false, 2, 2, 2, 2}, {"ignore12", true, false, 1, 2, 4, 2}, {"object12", false, true, 1, 2, 4, 1}, {"outignore12", true, false, 1, 2, 2, 2, 0, true} };
         else    sweeps = { {"basic22", false, false, 2, 2, 4, 2}, {"ignore22", true, false, 2, 2, 2, 2}, {"object22", false, true, 2, 2, 2, 1}, {"scope22", false, false, 2, 2, 2, 2, 1}, {"twoscopes22", false, false, 2, 2, 2, 2, 2}, {"outignore22", true, false, 2, 2, 2, 2, 0, true} };
     } else if (!T) {
-        sweeps = { {"basic22", false, false, 2, 2, 4, 2}, {"basic13", false, false, 1, 3, 3, 2}, {"ignore22", true, false, 2, 2, 2, 2}, {"object22", false, true, 2, 2, 2, 1}, {"scope22", false, false, 2, 2, 2, 2, 1}, {"scope13", false, false, 1, 3, 2, 2, 1}, {"twoscopes22", false, false, 2, 2, 2, 2, 2}, {"outignore22", true, false, 2, 2, 2, 2, 0, true}, {"plugin22", false, false, 2, 2, 2, 2, 0, false, true}, {"outname22", true, false, 2, 2, 2, 2, 0, false, false, true} };
+        sweeps = { {"basic22", false, false, 2, 2, 4, 2}, {"basic13", false, false, 1, 3, 3, 2}, {"ignore22", true, false, 2, 2, 2, 2}, {"object22", false, true, 2, 2, 2, 1}, {"scope22", false, false, 2, 2, 2, 2, 1}, {"scope13", false, false, 1, 3, 2, 2, 1}, {"twoscopes22", false, false, 2, 2, 2, 2, 2}, {"outignore22", true, false, 2, 2, 2, 2, 0, true}, {"plugin22", false, false, 2, 2, 2, 2, 0, false, true}, {"outname22", true, false, 2, 2, 2, 2, 0, false, false, true}, {"objnull22", false, true, 2, 2, 2, 1, 0, false, false, false, true} };
     } else {
-        sweeps = { {"basic23", false, false, 2, 3, 4, 2}, {"ignore23", true, false, 2, 3, 2, 2}, {"object22", false, true, 2, 2, 4, 1}, {"object23", false, true, 2, 3, 2, 1}, {"basic32", false, false, 3, 2, 2, 2}, {"scope23", false, false, 2, 3, 2, 2, 1}, {"twoscopes23", false, false, 2, 3, 2, 2, 2}, {"outignore23", true, false, 2, 3, 2, 2, 0, true}, {"plugin23", false, false, 2, 3, 2, 2, 0, false, true}, {"outname23", true, false, 2, 3, 2, 2, 0, false, false, true} };
+        sweeps = { {"basic23", false, false, 2, 3, 4, 2}, {"ignore23", true, false, 2, 3, 2, 2}, {"object22", false, true, 2, 2, 4, 1}, {"object23", false, true, 2, 3, 2, 1}, {"basic32", false, false, 3, 2, 2, 2}, {"scope23", false, false, 2, 3, 2, 2, 1}, {"twoscopes23", false, false, 2, 3, 2, 2, 2}, {"outignore23", true, false, 2, 3, 2, 2, 0, true}, {"plugin23", false, false, 2, 3, 2, 2, 0, false, true}, {"outname23", true, false, 2, 3, 2, 2, 0, false, false, true}, {"objnull23", false, true, 2, 3, 2, 1, 0, false, false, false, true} };
     }
     for (auto& sw : sweeps) run_sweep(sw);
     return vf::finish();
